@@ -3,16 +3,73 @@ package main
 import "time"
 
 type propSpec struct {
-	ID             string
-	Harnesses      []string
-	Covers         []string
-	Assumptions    []string
-	BudgetQuick    time.Duration
-	BudgetThorough time.Duration
-	CVC5First      bool
+	ID                string
+	Harnesses         []string
+	HarnessesThorough []string // additional harnesses of the thorough tier
+	Covers            []string
+	Assumptions       []string
+	BudgetQuick       time.Duration
+	BudgetThorough    time.Duration
+	CVC5First         bool
 }
 
+var common = []string{
+	"storage contract: a lookup that returns a nil error returns a non-nil record; every storage call may fail (where the profile opens faults); service providers are built by serviceprovider.NewServiceProvider",
+	"provider built by NewProvider with a static https issuer and default endpoints",
+	"registered consumer / logout URLs are absolute (https://...) and none, followed by '?', is the beginning of another",
+	"contracts of DESIGN §3.6 for code outside the module: encoding/xml (serialisation is an injective function of the value snapshot; Level S decode), html/template (usage level), flate, base64, url escaping (uninterpreted with inverse axioms), time (uninterpreted format/parse pair, monotonic clock), uuid (fresh, pairwise distinct), idealised signatures and hashes, gorilla/mux as a route table, CORS passes non-OPTIONS requests through",
+	"http.ResponseWriter never fails; request methods other than OPTIONS; request paths are clean",
+	"bound profiles (DESIGN §3.3): each harness opens some input dimensions and pins the others to nominal values; the product of all dimensions at once is outside the claim",
+}
+
+var cbCovers = []string{"callback.success", "callback.failure-message", "callback.http-error", "callback.form", "callback.redirect"}
+var ssoCovers = []string{"sso.accepted", "sso.rejected"}
+
+func mk(id string, quick []string, thorough []string, covers []string, extra ...string) *propSpec {
+	return &propSpec{ID: id, Harnesses: quick, HarnessesThorough: thorough, Covers: covers, Assumptions: append(append([]string{}, common...), extra...),
+		BudgetQuick: 8 * time.Minute, BudgetThorough: 45 * time.Minute}
+}
+
+var ssoAll = []string{"HarnessSSODecode", "HarnessSSOSig", "HarnessSSOACS", "HarnessSSOContent", "HarnessSSOFaults", "HarnessSSOACSFaults"}
+
 var specs = map[string]*propSpec{
+	"C01": mk("C01", []string{"HarnessCallback"}, nil, append(append([]string{}, cbCovers...), "callback.fault"),
+		"stored request: binding POST, Redirect or any other string; every other field an arbitrary string; user: e-mail and user name optional, <= 1 custom attribute (profile)"),
+	"C02": mk("C02", []string{"HarnessCallback", "HarnessSSOACS", "HarnessSSODecode", "HarnessLogout"}, []string{"HarnessSSOACSContent", "HarnessSSOContent"},
+		append(append([]string{}, cbCovers...), "sso.accepted", "sso.rejected", "logout.success", "logout.failure"),
+		"ACS entries <= 2 (quick) / <= 3 (thorough), SingleLogoutService entries <= 2 / <= 3"),
+	"C03": mk("C03", []string{"HarnessCallback"}, nil, cbCovers,
+		"no storage faults (profile: the property talks about Success replies); custom attributes <= 1 / <= 2, values per attribute <= 2 / <= 3; quick: only e-mail and user name optional, thorough: every standard attribute optional",
+		"attribute statements compared as sets of (Name, NameFormat, FriendlyName, value list) with equal cardinality"),
+	"C04": mk("C04", []string{"HarnessCallback", "HarnessAttrQuery", "HarnessMetadata"}, nil, []string{"C04.enveloped-success", "C04.redirect-success", "C04.attrquery-success", "C04.signed-metadata"},
+		"composition level (DESIGN §5 C04): what is signed is what is sent; agreement of xmlsig's canonical form with exclusive C14N of the wire bytes, and RSA/SHA themselves, are outside the claim",
+		"stored requests with binding POST or Redirect, any consumer URL"),
+	"C05": mk("C05", []string{"HarnessSSOSig"}, []string{"HarnessSSOPlacementSig"}, ssoCovers,
+		"idealised signatures: a signature verifies iff the simulated SP produced it over the same octets, algorithm and key; in these harnesses the SP signs nothing, so every signature value is a forgery",
+		"KeyDescriptor <= 1 / <= 2, X509Data <= 1 / <= 2"),
+	"C06": mk("C06", []string{"HarnessSSODecode", "HarnessSSOContent"}, []string{"HarnessSSOACSContent"}, ssoCovers),
+	"C07": mk("C07", []string{"HarnessLogoutConformant", "HarnessAttrQueryConformant", "HarnessSSOConformant"}, nil,
+		[]string{"C07.logout-redirect-binding", "C07.logout-post-binding", "C07.attrquery-with-destination", "C07.sso-redirect-binding", "C07.sso-post-binding"},
+		"conformant = schema-valid at struct level (Level S), unsigned where nothing requires signing; byte-level serialisation variety and signed requests are outside this check"),
+	"C08": mk("C08", ssoAll, []string{"HarnessSSOACSContent"}, ssoCovers),
+	"C09": mk("C09", append(append([]string{}, ssoAll...), "HarnessCallback", "HarnessLogout", "HarnessAttrQuery", "HarnessMetadata", "HarnessRegistration"), nil, nil,
+		"panics inside libraries on malformed bytes are outside the claim (Level S: every type-consistent decoded struct)"),
+	"C10": mk("C10", []string{"HarnessCallback", "HarnessSSOFaults", "HarnessSSOACSFaults", "HarnessLogout", "HarnessAttrQuery", "HarnessMetadata"}, nil, []string{"callback.fault"}),
+	"C11": mk("C11", []string{"HarnessMetadata", "HarnessC11Flags"}, nil, []string{"metadata.served"}),
+	"C12": mk("C12", []string{"HarnessAttrQuery"}, nil, []string{"attrquery.success", "attrquery.error"},
+		"requested attributes <= 1 / <= 2; user: e-mail, user name and <= 1 / <= 2 custom attributes (profile); the simulated requester signs nothing"),
+	"C13": mk("C13", []string{"HarnessLogout"}, nil, []string{"logout.success", "logout.failure"}),
+	"C14": mk("C14", []string{"HarnessC14"}, nil, []string{"C14.inflated"}),
+	"C15": mk("C15", append(append([]string{}, ssoAll...), "HarnessCallback", "HarnessLogout", "HarnessAttrQuery", "HarnessMetadata"), nil, nil,
+		"schedules are not encoded: the property is decided through the reduction of DESIGN §3.7 (no write to provider-lifetime state on any path; replies are terms over the request's own inputs); goroutine-safety of html/template, uuid, crypto/rand and the storage is trusted"),
+	"C16": mk("C16", []string{"HarnessC16", "HarnessSSOACS"}, nil, []string{"C16.empty-list", "C16.by-requested-binding", "C16.by-isDefault", "C16.by-lowest-index"},
+		"bound: ACS list length <= 3 (quick) / <= 6 (thorough) for the selection function, <= 2 / <= 3 end to end",
+		"registered metadata is schema-valid: Binding and Location non-empty, index a canonical xs:unsignedShort, isDefault in {absent,true,false,1,0}",
+		"strconv.Atoi/Itoa by contract (syntax, sign, range exact over mathematical integers)"),
+	"C17": mk("C17", []string{"HarnessCallback", "HarnessSSODecode", "HarnessSSOACS", "HarnessLogout"}, nil, []string{"callback.form"},
+		"usage level: html/template's escaping itself is the library's contract and is not encoded"),
+	"C18": mk("C18", []string{"HarnessC18"}, nil, []string{"C18.roundtrip"}),
+	"C19": mk("C19", []string{"HarnessC19Static", "HarnessC19Dynamic"}, nil, []string{"C19.static-accepted", "C19.dynamic"}),
 	"C20": {
 		ID:        "C20",
 		Harnesses: []string{"HarnessC20"},
@@ -24,46 +81,4 @@ var specs = map[string]*propSpec{
 		},
 		BudgetQuick: 5 * time.Minute, BudgetThorough: 30 * time.Minute,
 	},
-}
-
-func init() {
-	specs["C16"] = &propSpec{
-		ID:        "C16",
-		Harnesses: []string{"HarnessC16"},
-		Covers:    []string{"C16.empty-list", "C16.by-requested-binding", "C16.by-isDefault", "C16.by-lowest-index"},
-		Assumptions: []string{
-			"bound: ACS list length <= 3 (quick) / <= 6 (thorough)",
-			"registered metadata is schema-valid: Binding and Location non-empty, index a canonical xs:unsignedShort (no sign, no leading zeros, <= 65535), isDefault in {absent,true,false,1,0}",
-			"strconv.Atoi by contract (syntax, sign, range exact over mathematical integers)",
-		},
-		BudgetQuick: 5 * time.Minute, BudgetThorough: 30 * time.Minute,
-	}
-}
-
-func init() {
-	cb := []string{"callback.success", "callback.failure-message", "callback.http-error", "callback.form", "callback.redirect", "callback.fault"}
-	common := []string{
-		"storage contract: a lookup that returns a nil error returns a non-nil record; every storage call may fail",
-		"stored request: binding POST, Redirect or any other string; every other field an arbitrary string",
-		"provider built by NewProvider with a static https issuer and default endpoints; signature algorithm and WantAuthRequestsSigned arbitrary strings",
-		"encoding/xml, html/template, flate, base64, url escaping, time formatting, uuid: contracts of DESIGN §3.6 (serialisation is an injective function of the value; escaping is the library's)",
-		"http.ResponseWriter never fails; request methods other than OPTIONS",
-	}
-	for _, id := range []string{"C01", "C03"} {
-		specs[id] = &propSpec{ID: id, Harnesses: []string{"HarnessCallback"}, Covers: cb, Assumptions: common,
-			BudgetQuick: 8 * time.Minute, BudgetThorough: 40 * time.Minute}
-	}
-}
-
-func init() {
-	specs["C04"] = &propSpec{ID: "C04", Harnesses: []string{"HarnessCallback"}, Covers: []string{"C04.enveloped-success", "C04.redirect-success"},
-		Assumptions: []string{"see DESIGN §5 C04: composition level; xmlsig-vs-C14N agreement and RSA/SHA are outside the claim"},
-		BudgetQuick: 8 * time.Minute, BudgetThorough: 40 * time.Minute, CVC5First: true}
-}
-
-func init() {
-	for _, id := range []string{"C05", "C06", "C08"} {
-		specs[id] = &propSpec{ID: id, Harnesses: []string{"HarnessSSODecode", "HarnessSSOSig", "HarnessSSOACS", "HarnessSSOContent", "HarnessSSOFaults"}, Covers: []string{"sso.accepted", "sso.rejected"},
-			BudgetQuick: 8 * time.Minute, BudgetThorough: 40 * time.Minute}
-	}
 }
